@@ -27,10 +27,13 @@ class ValidatorMonitor:
         self._orig_energy = auditok.signal.calculate_energy
         mon = self
 
-        def __init__(self, energy_threshold, sample_width, channels, use_channel=None):
-            mon._orig_init(self, energy_threshold, sample_width, channels, use_channel)
+        def __init__(self, *args, **kwargs):
+            mon._orig_init(self, *args, **kwargs)
             try:
-                self._vf_args = dict(thr=energy_threshold, width=sample_width, channels=channels, uc=use_channel)
+                names = ("energy_threshold", "sample_width", "channels", "use_channel")
+                d = dict(zip(names, args))
+                d.update(kwargs)
+                self._vf_args = dict(thr=d.get("energy_threshold"), width=d.get("sample_width"), channels=d.get("channels"), uc=d.get("use_channel"))
             except Exception:
                 pass
 
@@ -52,8 +55,9 @@ class ValidatorMonitor:
                     mon.last_error = repr(exc)
             return result
 
-        def calculate_energy(x, agg_fn=None):
-            value = mon._orig_energy(x, agg_fn)
+        def calculate_energy(*args, **kwargs):
+            # pure pass-through: a refactoring may add parameters to the hooked function
+            value = mon._orig_energy(*args, **kwargs)
             mon.energy_calls += 1
             stack = getattr(mon._tls, "stack", None)
             if stack:
